@@ -251,7 +251,13 @@ def read_range_input(specification: str) -> List[float]:
         step = 0.005
         if len(parts) == 3:
             step = float(parts[2])
-        values = np.arange(min_value, max_value + step, step).tolist()
+        # Arithmetic progression from min to max inclusive, never beyond max
+        # (np.arange(min, max + step, step) overshoots for many float steps).
+        n_steps = int(np.floor((max_value - min_value) / step + 1e-9))
+        values = [
+            min(float(value), max_value)
+            for value in min_value + step * np.arange(n_steps + 1)
+        ]
     elif ',' in specification:
         values = [float(s) for s in specification.split(',')]
     else:
